@@ -42,6 +42,10 @@ def plan(tier, seed):
             pairs += [(f, s) for f in others for j, s in enumerate(ops) if (j + di) % 3 == 0]
         else:
             pairs = list(itertools.product(ops, repeat=2))
+        # every addition of node material followed by an edit of exactly the node just added
+        for f in structural:
+            for snd in [('delete-new',), ('remove-new',), ('replace-new', 's'), ('replace-new', 'a')]:
+                pairs.append((f, snd))
         for p in pairs:
             units.append(dict(hfile='history.py', fname='c15_history', args=(di, p)))
         if tier != 'quick':
